@@ -332,11 +332,48 @@ def make_case(ctx, g):
             if e1 != exp or e2 != exp:
                 fails.append(Failure("oracle", None, "bundles: x==y %s, y==x %s, content equal %s" % (e1, e2, exp),
                                      {"ops": list(w.ops), "expect_eq": exp}))
+    if g.chance(0.3):
+        # "serialisation round trip" is on the property's list of content-preserving transformations: the document read back
+        # from its own PROV-JSON text equals the document, from both sides
+        f = roundtrip_equal(ctx, w.conts[d], {"ops": list(w.ops), "roundtrip": "json", "doc": d})
+        if f is not None:
+            fails.append(f)
     ctx.evaluations += 1
     if len(w.conts[d].records) >= 2:
         ctx.nontrivial(w.ops)
     ctx.sample({"edit": edit, "ops": w.ops[:6], "n_ops": len(w.ops)})
     return w, fails
+
+
+def roundtrip_equal(ctx, doc, case):
+    from .c01 import unresolvable
+    import logging
+    import warnings
+    logging.disable(logging.CRITICAL)
+    try:
+        with warnings.catch_warnings():
+            warnings.simplefilter("ignore")
+            text = doc.serialize(format="json")
+            back = ProvDocument.deserialize(content=text, format="json")
+    except Exception:  # noqa  (judged by C01)
+        if ctx is not None:
+            ctx.count("roundtrip-not-applicable")
+        return None
+    finally:
+        logging.disable(logging.NOTSET)
+    if ctx is not None:
+        ctx.count("roundtrip-json")
+    e1, e2 = (doc == back), (back == doc)
+    if e1 and e2 and not (doc != back):
+        return None
+    if unresolvable(doc):
+        # known finding C01-1 (root cause C03-1): a name that does not read back to the same URI in the bundle where it is printed
+        if ctx is not None:
+            ctx.count("roundtrip-known-unresolvable-name")
+        return None
+    sig = "C04:membership-several-entities" if several_entities(doc) else None
+    return Failure("oracle", sig, "[serialisation round trip] the document read back from its own PROV-JSON text is not equal to it "
+                   "(d==d' %s, d'==d %s, d!=d' %s)" % (e1, e2, doc != back), case)
 
 
 def run(ctx):
@@ -351,6 +388,9 @@ def oracle_only(ctx):
 
 def _recheck(w, case):
     fails = []
+    if case.get("roundtrip"):
+        f = roundtrip_equal(None, w.conts[case["doc"]], case)
+        return [f] if f is not None else []
     exp = case.get("expect_eq")
     if exp is not None:
         last = [o for o in w.outs if isinstance(o, dict) and "eq" in o]
